@@ -6,8 +6,8 @@
   strings with escapes, characters, keywords, symbols, lists, vectors, sets, maps, tagged
   elements; every kind of whitespace, commas, comments and discarded forms between forms).
   The theorem quantifies over every derivation, so over documents of every size and shape up
-  to the reader's nesting limit.  Floating-point spellings are covered by C05
-  (`literal_correctly_rounded`), string contents by C06; the grammar classes the reader is known
+  to the reader's nesting limit.  A float renders the double nearest to the token's exact decimal
+  value (the rounding itself is C05), string contents are C06; the grammar classes the reader is known
   to treat differently are listed in known_findings.json and excluded by the shape of `Renders`.
 -/
 import Edn.Proofs.Complete
